@@ -67,6 +67,7 @@ func (tm *Temporal) Decode(vector string) (*Temporal, error) {
 	return tm, nil
 }
 func (tm *Temporal) decodeOne(str string) error {
+	verifTrace("v3.temporal.decodeOne", tm, str)
 	if err := tm.Base.decodeOne(str); err != nil {
 		if !errs.Is(err, cvsserr.ErrNotSupportMetric) {
 			return errs.Wrap(err, errs.WithContext("metric", str))
